@@ -111,9 +111,9 @@ def run_solve(case):
 def subchecks():
     return [
         SubCheck(name="schedule_and_capacity", mode="given", strategy=strat, run_case=run_case,
-                 counts={"quick": 96, "thorough": 1600}, shards={"quick": 8, "thorough": 16}, clear_every=5,
+                 counts={"quick": 96, "thorough": 4800}, shards={"quick": 8, "thorough": 16}, clear_every=5,
                  min_nontrivial_frac=0.3, doc="per-iteration schedule / counts / capacity vs python model"),
         SubCheck(name="schedule_through_solve", mode="given", strategy=strat, run_case=run_solve,
-                 counts={"quick": 24, "thorough": 320}, shards={"quick": 6, "thorough": 16}, clear_every=3,
+                 counts={"quick": 24, "thorough": 960}, shards={"quick": 6, "thorough": 16}, clear_every=3,
                  min_nontrivial_frac=0.3, doc="final generator state returned by jinns.solve vs python model"),
     ]
